@@ -35,7 +35,7 @@ func (e *Enc) instr(fr *Frame, b *ssa.BasicBlock, ins ssa.Instruction, st *State
 		bx := e.def(x.Name()+fr.suffix, e.box(x.X.Type(), v))
 		fr.vals[x] = bx
 		e.assume(tTrue, eq(T(SInt, "(tag %s)", bx.S), e.typeID(x.X.Type())))
-		e.assume(tTrue, eq(e.unbox(x.X.Type(), bx), v))
+		e.assume(tTrue, same(e.unbox(x.X.Type(), bx), v))
 		e.assume(tTrue, not(eq(bx, Term{"nil_iface", SIface})))
 	case *ssa.TypeAssert:
 		e.typeAssert(fr, x, st, reach, pos)
@@ -790,7 +790,16 @@ func (e *Enc) rangeInit(fr *Frame, x *ssa.Range, st *State, reach Term) {
 	if _, isMap := x.X.Type().Underlying().(*types.Map); isMap {
 		key, ks := e.rangeSeenKey(fr, x)
 		e.heapSet(st, key, Term{fmt.Sprintf("((as const %s) false)", arraySort(ks, SBool)), arraySort(ks, SBool)})
+	} else if b, isStr := x.X.Type().Underlying().(*types.Basic); isStr && b.Info()&types.IsString != 0 {
+		e.heapSet(st, e.rangeCountKey(fr, x), Term{"0", SInt})
 	}
+}
+
+// rangeCountKey: ghost number of code points already produced by a range over a string (one per Range instruction).
+func (e *Enc) rangeCountKey(fr *Frame, x *ssa.Range) string {
+	key := "RN:" + mangle(fr.fn.String()) + ":" + x.Name() + fr.suffix
+	e.regHeap(key, SInt)
+	return key
 }
 
 func (e *Enc) rangeNext(fr *Frame, x *ssa.Next, st *State, reach Term) {
@@ -802,6 +811,12 @@ func (e *Enc) rangeNext(fr *Frame, x *ssa.Next, st *State, reach Term) {
 		i := e.fresh("next_i", SInt)
 		r := e.fresh("next_r", SInt)
 		e.assume(tTrue, implies(ok, T(SBool, "(and (<= 0 %s) (< %s (str_len %s)) (<= 0 %s) (<= %s 1114111))", i.S, i.S, s.S, r.S, r.S)))
+		// Go's range over a string visits the code points in order: the k-th iteration (k from 0) starts at byte
+		// offset cpoff(s, k), and the loop ends after str_nrunes(s) iterations (cpoff: spec/40_str.smt2)
+		ck := e.rangeCountKey(fr, rng)
+		k := e.def("next_n", e.heapGet(st, ck))
+		e.assume(tTrue, T(SBool, "(and (<= 0 %s) (= %s (< %s (str_nrunes %s))) (=> %s (= %s (cpoff %s %s))))", k.S, ok.S, k.S, s.S, ok.S, i.S, s.S, k.S))
+		e.heapSet(st, ck, ite(ok, T(SInt, "(+ %s 1)", k.S), k))
 		fr.tuples[x] = []Term{ok, i, r}
 		return
 	}
